@@ -171,4 +171,58 @@ PROPS["C12"] = {
     "assumptions": ["for IDL, non-integer c or k may be rejected; if a value is returned it must be exact"],
 }
 
+
+def _c16(tier):
+    q = tier == "quick"
+    return [
+        {"cfg": "dbg", "harness": "h_lang", "sub": "lexer", "cases": 8000 if q else 100000, "max_size": 200, "shards": 5, "budget_ms": 10000},
+        {"cfg": "dbg", "harness": "h_lang", "sub": "group", "cases": 8000 if q else 100000, "max_size": 200, "shards": 5, "budget_ms": 10000},
+        {"cfg": "dbg", "harness": "h_lang", "sub": "accept", "cases": 8000 if q else 100000, "max_size": 250, "shards": 6, "budget_ms": 10000},
+    ]
+
+
+PROPS["C16"] = {
+    "runs": _c16,
+    "rule": "Three parser-level sub-checks (evaluation of constant expressions is checked on solved programs, see the eval sub-run when present). lexer: 1-30 tokens over every keyword, "
+            "operator, punctuation, identifiers shaped like keyword prefixes / extensions / one-letter variants, integer, real (d+.d+ and .d+) and string literals with escapes, rendered "
+            "with random legal separators (blanks, tabs, CR/LF, line and block comments) or none where unambiguous; the lexer must return exactly the kinds and payloads written. "
+            "group: 1-3 random expression trees over all unary / binary / n-ary operators, casts, constructor and function calls, printed with minimal and with redundant parentheses "
+            "(never around a bare identifier), parsed with a subclass of riddle::parser whose factory methods build an S-expression; must equal the tree under the parser's documented "
+            "precedence (== != < relational/logical < + - < * / < unary) and left associativity, with chains of one n-ary operator flattened. accept: programs derived from every "
+            "declaration and statement production of the parser (typedef, enum unions, classes with bases / fields / constructors with initialiser lists / methods / predicates / nested "
+            "types, predicates with supertypes, local fields, assignments, expression statements starting with every admissible token, blocks, disjunctions with costs, facts / goals "
+            "with scopes, return) must parse without exception. Non-trivial: lexer - a keyword-like identifier or a comment separator; group - depth >= 2 over >= 2 precedence levels; "
+            "accept - a method, a constructor or a disjunction. Distinct by rendered input.",
+    "technique": "property-based testing: token-list round-trip, expression-tree print/parse round-trip, grammar-based program generation",
+    "level_text": "Random token lists, expression trees and grammar-derived programs (10^4-10^5 per sub-check and run). There is no language specification in the repository: "
+                  "'documented' precedence is the parser's own table as quoted in the property.",
+    "level_note": "Trusted: the harness's printer / normaliser; `this` is accepted as identifier or THIS_ID; a parenthesised bare identifier is never generated (by construction ambiguous with a cast).",
+    "assumptions": ["parser-level only in this run table; literals stay within 18 digits"],
+}
+
+
+def _c18(tier):
+    q = tier == "quick"
+    return [
+        {"cfg": "dbg", "harness": "h_lang", "sub": "bytes", "cases": 3000 if q else 80000, "max_size": 220, "shards": 8, "budget_ms": 10000},
+        {"cfg": "dbg", "harness": "h_net", "sub": "mixed", "cases": 350 if q else 8000, "max_size": 800, "shards": 8, "budget_ms": 30000, "leak": True, "opts": {"leakcheck": "1"},
+         "replay_args": ["--crash-violation"]},
+    ]
+
+
+PROPS["C18"] = {
+    "runs": _c18,
+    "rule": "bytes (riddle::parser::parse on arbitrary text): token soup over the language's characters incl. quotes, comment openers, huge numerals, control and non-ASCII bytes; and "
+            "grammar-derived valid programs, unchanged or with 1-3 mutations (truncation at a byte, chunk deleted / duplicated, unterminated string / comment inserted, huge numeral, long "
+            "decimal, non-ASCII byte, structural character replaced). Every case runs in a forked child of the Debug+ASan+UBSan build: a normal return or a std::exception is fine; a signal, "
+            "assertion, std::terminate, sanitizer report or a CPU budget hit (10 s for <= 4 KiB of input; lexer and parser are linear) is a violation after three reproductions. "
+            "network (valid API histories of C07 with all theories, oracles off, LeakSanitizer at process end): any abnormal termination or leak is a violation. "
+            "Non-trivial: bytes - input of >= 12 bytes; network - the history contains a conflict with a learnt clause, a backjump or a theory lemma. Distinct by input text / rendered history.",
+    "technique": "property-based fuzzing with a grammar-based mutator and sanitizers; crash / hang oracle in forked children",
+    "level_text": "Generated invalid, truncated and valid inputs under ASan/UBSan/assertions; bounded time approximated by a generous CPU budget.",
+    "level_note": "Trusted: sanitizers and assertions as crash oracles; CPU-time budget (RLIMIT_CPU) rather than wall clock, so load cannot produce an alarm. Valid programs through read()+solve() "
+                  "are exercised by the solver-level runs when present.",
+    "assumptions": ["a byte 0xFF ends the input for the lexer (it is its end-of-input sentinel); this is treated as clean termination"],
+}
+
 NOT_CLAIMED = {}
